@@ -66,3 +66,40 @@ def suffix(s, n):
 
 def empty_str():
     return z3.StringVal("")
+
+
+def with_history(w, target, cell, entry, note=""):
+    """Replace the contract of `target` in world `w` by a trusted copy whose every outcome also appends entry(a, h) to the ghost sequence cell(a, h) = (cls, ref, field).
+    A history variable: pure instrumentation of "this call happened, with these arguments"; the function itself is verified elsewhere against the unextended contract."""
+    import copy
+
+    import z3
+
+    real = w.contracts[target]
+    c = copy.copy(real)
+    c.trusted = True
+    c.note = (note or "verified against its own contract elsewhere") + "; here extended by a history variable (the call is recorded)"
+    old_mod = real.modifies
+
+    def mod(a, h):
+        return list(old_mod(a, h)) + [cell(a, h)]
+
+    c.modifies = mod
+    cases = []
+    for cs in real.cases:
+        c2 = copy.copy(cs)
+
+        def mk(oldf):
+            if oldf is None:
+                return None
+
+            def post(a, h, h2, r):
+                cls, ref, field = cell(a, h)
+                return list(oldf(a, h, h2, r)) + [h2(cls, ref, field) == z3.Concat(h(cls, ref, field), z3.Unit(entry(a, h)))]
+            return post
+        c2.post = mk(cs.post)
+        c2.post_assume = mk(cs.post_assume)
+        cases.append(c2)
+    c.cases = cases
+    w.contracts[target] = c
+    return c
